@@ -54,7 +54,7 @@ def run(flavour, seconds, readers, mutator, failures, stats):
     base.register([I], P, "n", fa)
     base.subscribe([I], P, "s0")
     other.register([I], P, "", fa)
-    other.subscribe([I], P, "s0")
+    other.subscribe([I], P, "s0")        # no "n" registration here: a registry stuck on this base is noticed
     ob = Ob()
     stop = time.time() + seconds
     lock = threading.Lock()
@@ -98,7 +98,7 @@ def run(flavour, seconds, readers, mutator, failures, stats):
                         fail("adapter_hook returned %r" % (r,))
                     n += 1
         except Exception as e:   # noqa
-            fail("exception in reader thread: %s: %s" % (type(e).__name__, str(e)[:200]))
+            import traceback; fail("exception in reader thread: %s: %s | %s" % (type(e).__name__, str(e)[:200], " <- ".join("%s:%d %s" % (f.filename.split("/")[-1], f.lineno, f.name) for f in traceback.extract_tb(e.__traceback__)[-6:])))
         with lock:
             stats["lookups"] = stats.get("lookups", 0) + n * 6
 
@@ -118,7 +118,13 @@ def run(flavour, seconds, readers, mutator, failures, stats):
                 reg.unregister([J, J], P, "")
                 if i % 5 == 0:
                     reg.__bases__ = (other,)
+                    if list(reg.ro) != [reg, other]:
+                        fail("after reg.__bases__ = (other,) returned, reg.ro is %s" % (
+                            ["reg" if r is reg else "base" if r is base else "other" for r in reg.ro],))
                     reg.__bases__ = (base,)
+                    if list(reg.ro) != [reg, base]:
+                        fail("after reg.__bases__ = (base,) returned, reg.ro is %s" % (
+                            ["reg" if r is reg else "base" if r is base else "other" for r in reg.ro],))
         except Exception as e:   # noqa
             import traceback; fail("exception in mutator thread: %s: %s | %s" % (type(e).__name__, str(e)[:200], " <- ".join("%s:%d %s" % (f.filename.split("/")[-1], f.lineno, f.name) for f in traceback.extract_tb(e.__traceback__)[-4:])))
         with lock:
@@ -129,6 +135,14 @@ def run(flavour, seconds, readers, mutator, failures, stats):
         ts.append(threading.Thread(target=writer))
     [t.start() for t in ts]
     [t.join() for t in ts]
+    # quiescence: the registry must consult its current base chain and answer from the final state
+    from zope.interface import ro as zro
+    if list(reg.ro) != zro.ro(reg) or list(reg.ro) != [reg, base]:
+        fail("after all threads finished, reg.ro is %s but __bases__ gives %s"
+             % (["reg" if r is reg else "base" if r is base else "other" for r in reg.ro],
+                ["reg" if r is reg else "base" if r is base else "other" for r in zro.ro(reg)]))
+    if reg.lookup([J], P, "") is not fa or reg.lookup([J], P, "n") is not fa or tuple(reg.subscriptions([J], P)) != ("s0",):
+        fail("after all threads finished, lookups return %r %r %r" % (reg.lookup([J], P, ""), reg.lookup([J], P, "n"), reg.subscriptions([J], P)))
 
 
 def main():
